@@ -11,7 +11,8 @@
    injection at every recorded call (harness/c13.py); the index side is Prop_C06/C11: the
    invariant survives every operation, and a failed append invalidates the index (F19 repair). *)
 From Coq Require Import List ZArith NArith Bool.
-From TF Require Import Base Query Index DB IO proofs.IOP proofs.FaultP proofs.PlanP proofs.FaultOpP.
+From TF Require Import Base Query Index DB IO proofs.IOP proofs.FaultP proofs.PlanP proofs.FaultOpP proofs.IOGenP.
+From TF Require gen.IOGen.
 Import ListNotations.
 
 Theorem C13_fault_leaves_old_or_new : forall old p k recovery, forallb safe recovery = true ->
@@ -35,7 +36,14 @@ Theorem C13_operation_fault : forall E C norm s o k recovery,
   old_new_or_prefix old new (w_disk w) /\ old_new_or_prefix old new (w_disk (apply w PClose)).
 Proof. exact operation_fault_old_or_new. Qed.
 
+(* the I/O calls REGENERATED from tinyflux/storages.py on every run (gen/IOGen.v: symbolic execution of CSVStorage.append, _write([]) / reset,
+   _init_temp_storage, _swap_temp_with_primary, _cleanup_temp_storage, __iter__ along their success path) are the scripts of the model, for every
+   plan of an operation: every theorem of this file about script_of is a theorem about the calls the source makes now *)
+Theorem C13_source_scripts_are_the_model : forall old p, gen_script_of old p = script_of old p.
+Proof. exact gen_script_of_eq. Qed.
+
 Print Assumptions C13_fault_leaves_old_or_new.
 Print Assumptions C13_operation_fault.
 Print Assumptions C13_also_after_close.
 Print Assumptions C13_buffer_is_part_of_the_operation.
+Print Assumptions C13_source_scripts_are_the_model.
